@@ -485,7 +485,7 @@ func (s *interim) processDocument(docNum uint64,
 				term.EachLocation(func(location segment.Location) {
 					existingTf.Locations = append(existingTf.Locations,
 						&tokenLocation{
-							FieldVal:    field.Name(),
+							FieldVal:    location.Field(),
 							StartVal:    location.Start(),
 							EndVal:      location.End(),
 							PositionVal: location.Pos(),
